@@ -8,7 +8,9 @@
 //! diagnostics (+ the publishDiagnostics parameters), semantic tokens, formatting, hover and
 //! go-to-definition at generated positions.
 //! Oracle (differential): each answer equals the answer of a FRESH `CompilerState` on the files
-//! now on disk with the currently open buffers inserted (didOpen) before the query.
+//! now on disk with the currently open buffers inserted (didOpen) before the query; and, as that
+//! alone cannot see a defect in how open buffers are read (both servers share it), it also equals
+//! the answer of a fresh server on a mirror directory whose files hold the effective contents.
 use std::collections::{BTreeMap, BTreeSet};
 use std::path::{Path, PathBuf};
 use std::str::FromStr;
@@ -295,6 +297,14 @@ fn run_history(steps: &[Step], root: &Path, warm_up: bool, verbose: bool, stats:
     let config = create_config(&root.join("isograph.config.json"), cwd);
     let (sender, receiver) = crossbeam::channel::unbounded::<lsp_server::Message>();
     let mut live = Server::new(&config, cwd, root, &sender).map_err(|e| Stop::Inconclusive(format!("initial state: {e}")))?;
+    // second oracle: a mirror project whose FILES hold the effective contents (no open buffers)
+    let mirror = root.parent().expect("parent").join("m");
+    write_initial_tree(&mirror, &initial);
+    let mirror_cwd = project_cwd(&mirror);
+    let mirror_config = create_config(&mirror.join("isograph.config.json"), mirror_cwd);
+    let normalise = |v: &Value, r: &Path| -> Value {
+        serde_json::from_str(&v.to_string().replace(&r.display().to_string(), "<ROOT>")).unwrap_or(Value::Null)
+    };
     let mut open: BTreeMap<&'static str, String> = BTreeMap::new();
     let mut changed_since_open: BTreeSet<&'static str> = BTreeSet::new();
     let mut queried = false;
@@ -477,6 +487,41 @@ fn run_history(steps: &[Step], root: &Path, warm_up: bool, verbose: bool, stats:
                             truncate(&want.to_string())
                         ),
                     )));
+                }
+                // Second oracle, independent of the open-buffer mechanism: a fresh server on a mirror
+                // directory in which the open buffers have been written into their files (a buffer
+                // for a file that is not on disk replaces nothing and is left out).
+                if got.get("panic").is_none() {
+                    for extra in ["schema.graphql", "ext.graphql"] {
+                        let _ = std::fs::copy(root.join(extra), mirror.join(extra));
+                    }
+                    for f in FILES {
+                        let on_disk = std::fs::read_to_string(root.join(f)).ok();
+                        match (on_disk, open.get(f)) {
+                            (Some(_), Some(buffer)) => std::fs::write(mirror.join(f), buffer).map_err(|e| Stop::Inconclusive(format!("mirror: {e}")))?,
+                            (Some(disk), None) => std::fs::write(mirror.join(f), disk).map_err(|e| Stop::Inconclusive(format!("mirror: {e}")))?,
+                            (None, _) => {
+                                let _ = std::fs::remove_file(mirror.join(f));
+                            }
+                        }
+                    }
+                    let materialised = Server::new(&mirror_config, mirror_cwd, &mirror, &fsender)
+                        .map_err(|e| Stop::Inconclusive(format!("mirror state: {e}")))?
+                        .query(rel, kind, position);
+                    let (a, b) = (normalise(&got, root), normalise(&materialised, &mirror));
+                    if a != b {
+                        return Err(Stop::Fail(Fail::new(
+                            format!("differs-from-materialised-contents:{kind_name}"),
+                            format!(
+                                "step {i}: {kind_name} on {rel} at {}:{} (open buffers: {:?})\nlive server (= fresh server with the buffers opened): {}\nfresh server on files holding the effective contents: {}",
+                                position.line,
+                                position.character,
+                                open.keys().collect::<Vec<_>>(),
+                                truncate(&a.to_string()),
+                                truncate(&b.to_string())
+                            ),
+                        )));
+                    }
                 }
                 if got.get("panic").is_some() {
                     // both servers panic alike; the real server would be gone now
